@@ -1,6 +1,7 @@
 package main
 
 import (
+	"net/url"
 	"strings"
 
 	"google.golang.org/protobuf/proto"
@@ -61,7 +62,7 @@ func c07One(e *c03Env, o *out, r *rng, rule c03Rule, mode string, allPerms bool)
 	// the competitor message: same as M but other values at the path-bound fields
 	comp := proto.Clone(M).ProtoReflect()
 	var inject []c03KV
-	inBody, inQuery := strings.Contains(mode, "b"), strings.Contains(mode, "q")
+	inBody, inQuery := strings.Contains(mode, "b"), strings.Contains(mode, "q") || strings.Contains(mode, "f")
 	for i, v := range rule.Vars {
 		fds := c03Resolve(e.root, v)
 		last := fds[len(fds)-1]
@@ -127,9 +128,25 @@ func c07One(e *c03Env, o *out, r *rng, rule c03Rule, mode string, allPerms bool)
 	if !sp.OK {
 		return
 	}
-	query := append(append([]c03KV{}, sp.Query...), inject...)
 	kind := "C07"
-	if strings.Contains(mode, "x") {
+	if strings.Contains(mode, "f") {
+		// the competing values as a form-encoded body (no codec is registered for it: the request may be refused, but a
+		// handler that is reached sees the captures in the path-bound fields)
+		if len(inject) == 0 || rule.Body == "" {
+			return
+		}
+		form := url.Values{}
+		for _, kv := range inject {
+			form.Add(kv.K, kv.V)
+			if i := strings.LastIndex(kv.K, "."); i >= 0 && rule.Body != "*" {
+				form.Add(kv.K[i+1:], kv.V) // (relative to the body field as well)
+			}
+		}
+		kind, inject = "C07X", nil
+		sp.Body = &c03Body{Codec: "f", Raw: []byte(form.Encode()), Dec: "E"}
+	}
+	query := append(append([]c03KV{}, sp.Query...), inject...)
+	if strings.Contains(mode, "x") && kind == "C07" {
 		// a key no query may use (through a repeated / map field, an unknown name): the request may be
 		// refused, but if the handler is reached the path-bound fields carry the captures
 		kind = "C07X"
@@ -192,7 +209,7 @@ func c07Gen(o *out, r *rng, tier string) {
 			}
 			modes := []string{"-", "q", "qs"}
 			if rule.Body != "" {
-				modes = append(modes, "b", "bq", "bqs")
+				modes = append(modes, "b", "bq", "bqs", "f")
 			}
 			if n%4 == 0 {
 				modes = append(modes, "qx")
